@@ -113,7 +113,7 @@ func registerIntrinsics(m map[string]modelFn) {
 		r, mdl := e.solver.CheckModel(cond, e.inputVars(st, cond))
 		switch r {
 		case Sat:
-			st.addPC(cond)
+			e.addPC(st, cond)
 			st.model = mdl
 			e.finish(st, c, nil)
 		case Unsat:
